@@ -1,1 +1,1136 @@
-fn main(){}
+//! C13 — the simulated dataplane enforces the SCION forwarding rules and agrees, AS step by AS
+//! step, with an independently written reference border router.
+
+use pocketscion::network::scion::{
+    routing::{AsRoutingAction, LocalAsRoutingAction, ScionNetworkTime, spec::SpecRoutingLogic},
+    simulator::ScionNetworkSim,
+    topology::ScionTopology,
+};
+use p_sciparse::topogen::{self, TopoSpec};
+use proptest::prelude::*;
+use refmodel::{
+    mac::{self, Chain, SegUse},
+    router::{self, Lenient, Reject, Verdict},
+    topo::{self, BeaconParams, Seg, Topo},
+    wire::{self as rw, RHeader, RHop, RPath, RStd},
+};
+use sciparse::{
+    core::view::View,
+    identifier::isd_asn::IsdAsn,
+    packet::view::ScionRawPacketView,
+    payload::scmp::{model::ScmpErrorMessage, types::ScmpParameterProblemCode as PP},
+};
+use serde::{Deserialize, Serialize};
+use vcore::{CheckResult, Ctx, Fail, Obs, Sub, ensure, idx};
+
+#[derive(Clone, Debug, Serialize, Deserialize)]
+struct UseSpec {
+    seg: u16,
+    lo: u16,
+    hi: u16,
+    cons_dir: bool,
+    peer: Option<u16>,
+}
+
+#[derive(Clone, Debug, Serialize, Deserialize)]
+enum Base {
+    /// the `which`-th path the reference combinator finds from src to dst
+    Authentic { src: u16, dst: u16, which: u16 },
+    /// authentic (parts of) segments in an arbitrary order/direction, each with a SegID that makes
+    /// it verify on its own
+    Splice { uses: Vec<UseSpec> },
+}
+
+#[derive(Clone, Debug, Serialize, Deserialize)]
+enum Mut {
+    /// field: 0 ConsIngress, 1 ConsEgress, 2 ExpTime, 3 MAC byte (val>>8 selects the byte), 4 reserved flag bits
+    Hop { hop: u16, field: u8, val: u16, mode: u8 },
+    /// field: 0 SegID, 1 Timestamp, 2 ConsDir flag, 3 Peering flag, 4 reserved byte
+    Info { inf: u16, field: u8, val: u32, mode: u8 },
+    /// field: 0 CurrINF, 1 CurrHF, 2..=4 SegLen[i], 5 reserved bits
+    Meta { field: u8, val: u8, mode: u8 },
+    /// moves the boundary between segment i and i+1 by one hop (dir: true = towards the end)
+    ShiftBoundary { i: u8, dir: bool },
+    SwapHops(u16, u16),
+    SwapSegs(u8, u8),
+    DropHop(u16),
+    DupHop(u16),
+    /// replaces hop field `hop` by an authentic hop field of another segment
+    ForeignHop { hop: u16, seg: u16, idx: u16, peer: Option<u16> },
+}
+
+#[derive(Clone, Debug, Serialize, Deserialize)]
+enum Down {
+    Link(u16),
+    /// the k-th link the reference router would forward the packet over
+    OnPath(u16),
+}
+
+#[derive(Clone, Debug, Serialize, Deserialize)]
+enum Clock {
+    Valid,
+    BeforeTs(u32),
+    /// whole second of the expiry of hop `hop` + delta
+    AtExpiry { hop: u16, delta: i8 },
+    After(u32),
+}
+
+#[derive(Clone, Debug, Serialize, Deserialize)]
+enum Inject {
+    Source,
+    /// after k forwarding steps of the reference router, at the AS / interface it arrives on
+    Mid { k: u16 },
+    MidWrongIf { k: u16, ifsel: u16 },
+    Any { asn: u16, ifsel: u16 },
+}
+
+#[derive(Clone, Debug, Serialize, Deserialize)]
+struct Case {
+    topo: TopoSpec,
+    ts: u32,
+    bseed: u64,
+    exp: Option<u8>,
+    base: Base,
+    muts: Vec<Mut>,
+    down: Vec<Down>,
+    clock: Clock,
+    inject: Inject,
+    /// header destination ISD-AS override (AS index)
+    dst: Option<u16>,
+}
+
+fn apply(mode: u8, old: u32, val: u32, mask: u32) -> u32 {
+    (match mode % 4 {
+        0 => val,
+        1 => old ^ (val | (val == 0) as u32),
+        2 => old.wrapping_add(1),
+        _ => old.wrapping_sub(1),
+    }) & mask
+}
+
+fn seg_bounds(p: &RStd) -> Vec<(usize, usize)> {
+    let mut out = vec![];
+    let mut k = 0usize;
+    for l in p.seg_len.iter() {
+        if *l == 0 {
+            break;
+        }
+        out.push((k, k + *l as usize));
+        k += *l as usize;
+    }
+    out
+}
+
+fn mutate(p: &mut RStd, m: &Mut, all: &[Seg]) -> String {
+    let nh = p.hops.len();
+    let ni = p.infos.len();
+    match m {
+        Mut::Hop { hop, field, val, mode } => {
+            if nh == 0 {
+                return "none".into();
+            }
+            let h = &mut p.hops[idx(*hop, nh)];
+            match field % 5 {
+                0 => h.ing = apply(*mode, h.ing as u32, *val as u32, 0xffff) as u16,
+                1 => h.eg = apply(*mode, h.eg as u32, *val as u32, 0xffff) as u16,
+                2 => h.exp = apply(*mode, h.exp as u32, *val as u32, 0xff) as u8,
+                3 => {
+                    let b = (*val >> 8) as usize % 6;
+                    h.mac[b] = apply(*mode, h.mac[b] as u32, (*val & 0xff) as u32, 0xff) as u8;
+                }
+                // only the reserved bits: router alerts are outside the reference model
+                _ => h.flags = apply(*mode, h.flags as u32, *val as u32, 0xfc) as u8 | (h.flags & 3),
+            }
+            ["hop-ingress", "hop-egress", "hop-exptime", "hop-mac", "hop-reserved-flags"][(*field % 5) as usize].into()
+        }
+        Mut::Info { inf, field, val, mode } => {
+            if ni == 0 {
+                return "none".into();
+            }
+            let i = &mut p.infos[idx(*inf, ni)];
+            match field % 5 {
+                0 => i.seg_id = apply(*mode, i.seg_id as u32, *val, 0xffff) as u16,
+                1 => i.ts = apply(*mode, i.ts, *val, u32::MAX),
+                2 => i.flags ^= 1,
+                3 => i.flags ^= 2,
+                _ => i.rsv = apply(*mode, i.rsv as u32, *val, 0xff) as u8,
+            }
+            ["info-segid", "info-timestamp", "info-consdir", "info-peering", "info-reserved"][(*field % 5) as usize].into()
+        }
+        Mut::Meta { field, val, mode } => {
+            match field % 6 {
+                0 => p.curr_inf = apply(*mode, p.curr_inf as u32, *val as u32, 3) as u8,
+                1 => p.curr_hf = apply(*mode, p.curr_hf as u32, *val as u32, 63) as u8,
+                f @ 2..=4 => {
+                    let k = (f - 2) as usize;
+                    p.seg_len[k] = apply(*mode, p.seg_len[k] as u32, *val as u32, 63) as u8
+                }
+                _ => p.rsv = apply(*mode, p.rsv as u32, *val as u32, 63) as u8,
+            }
+            ["meta-currinf", "meta-currhf", "meta-seglen", "meta-seglen", "meta-seglen", "meta-reserved"][(*field % 6) as usize].into()
+        }
+        Mut::ShiftBoundary { i, dir } => {
+            let b = seg_bounds(p);
+            if b.len() < 2 {
+                return "none".into();
+            }
+            let k = (*i as usize) % (b.len() - 1);
+            if *dir && p.seg_len[k + 1] > 1 {
+                p.seg_len[k] += 1;
+                p.seg_len[k + 1] -= 1;
+            } else if !*dir && p.seg_len[k] > 1 {
+                p.seg_len[k] -= 1;
+                p.seg_len[k + 1] += 1;
+            }
+            "shift-boundary".into()
+        }
+        Mut::SwapHops(a, b) => {
+            if nh >= 2 {
+                p.hops.swap(idx(*a, nh), idx(*b, nh));
+            }
+            "swap-hops".into()
+        }
+        Mut::SwapSegs(a, b) => {
+            let bd = seg_bounds(p);
+            if bd.len() >= 2 && bd.len() == ni && bd.last().map(|x| x.1) == Some(nh) {
+                let (a, b) = ((*a as usize) % bd.len(), (*b as usize) % bd.len());
+                let mut segs: Vec<(rw::RInfo, Vec<RHop>)> = bd.iter().enumerate().map(|(i, (s, e))| (p.infos[i], p.hops[*s..*e].to_vec())).collect();
+                segs.swap(a, b);
+                p.infos.clear();
+                p.hops.clear();
+                p.seg_len = [0; 3];
+                for (i, (inf, hs)) in segs.into_iter().enumerate() {
+                    p.seg_len[i] = hs.len() as u8;
+                    p.infos.push(inf);
+                    p.hops.extend(hs);
+                }
+            }
+            "swap-segments".into()
+        }
+        Mut::DropHop(h) => {
+            let bd = seg_bounds(p);
+            if nh >= 3 && bd.last().map(|x| x.1) == Some(nh) {
+                let k = idx(*h, nh);
+                let si = bd.iter().position(|(s, e)| *s <= k && k < *e).unwrap();
+                if p.seg_len[si] > 1 {
+                    p.hops.remove(k);
+                    p.seg_len[si] -= 1;
+                }
+            }
+            "drop-hop".into()
+        }
+        Mut::DupHop(h) => {
+            let bd = seg_bounds(p);
+            if nh >= 1 && nh < 60 && bd.last().map(|x| x.1) == Some(nh) {
+                let k = idx(*h, nh);
+                let si = bd.iter().position(|(s, e)| *s <= k && k < *e).unwrap();
+                let hh = p.hops[k];
+                p.hops.insert(k, hh);
+                p.seg_len[si] += 1;
+            }
+            "dup-hop".into()
+        }
+        Mut::ForeignHop { hop, seg, idx: hi, peer } => {
+            if nh == 0 || all.is_empty() {
+                return "none".into();
+            }
+            let s = &all[idx(*seg, all.len())];
+            let ch = &s.chain.hops[idx(*hi, s.chain.hops.len())];
+            let new = match peer {
+                Some(k) if !ch.peers.is_empty() => {
+                    let ph = &ch.peers[idx(*k, ch.peers.len())];
+                    RHop { flags: 0, exp: ph.exp, ing: ph.ing, eg: ch.eg, mac: ph.mac }
+                }
+                _ => RHop { flags: 0, exp: ch.exp, ing: ch.ing, eg: ch.eg, mac: ch.mac },
+            };
+            p.hops[idx(*hop, nh)] = new;
+            "foreign-hop".into()
+        }
+    }
+}
+
+fn mk_packet(p: &RStd, src_ia: u64, dst_ia: u64) -> Vec<u8> {
+    mk_packet_with(RPath::Std(p.clone()), 1, src_ia, dst_ia)
+}
+
+fn mk_packet_with(path: RPath, path_type: u8, src_ia: u64, dst_ia: u64) -> Vec<u8> {
+    let path_len = match &path {
+        RPath::Std(p) => 4 + 8 * p.infos.len() + 12 * p.hops.len(),
+        RPath::OneHop { .. } => 32,
+        _ => 0,
+    };
+    let payload = [0x13u8, 0x88, 0x13, 0x89, 0, 12, 0, 0, b'c', b'1', b'3', b'!'];
+    let h = RHeader {
+        version: 0,
+        tc: 0,
+        flow: 1,
+        next: 17,
+        hdr_units: ((36 + path_len) / 4) as u8,
+        payload_len: payload.len() as u16,
+        path_type,
+        dst_tl: 0,
+        src_tl: 0,
+        rsv: 0,
+        dst_ia,
+        src_ia,
+        dst_host: vec![10, 0, 0, 2],
+        src_host: vec![10, 0, 0, 1],
+        path,
+    };
+    let mut b = rw::encode_header(&h);
+    b.extend_from_slice(&payload);
+    b
+}
+
+#[derive(Clone, Debug, PartialEq, Eq)]
+enum SutV {
+    Forward(u16),
+    Deliver,
+    Drop,
+    Err(&'static str),
+    Alert,
+    External,
+}
+impl SutV {
+    fn short(&self) -> String {
+        match self {
+            SutV::Forward(_) => "forward".into(),
+            SutV::Deliver => "deliver".into(),
+            SutV::Drop => "drop".into(),
+            SutV::Err(c) => format!("err-{c}"),
+            SutV::Alert => "alert".into(),
+            SutV::External => "external".into(),
+        }
+    }
+}
+
+fn classify_action(a: &AsRoutingAction) -> SutV {
+    match a {
+        AsRoutingAction::ForwardNextHop { egress_interface_id } => SutV::Forward(*egress_interface_id),
+        AsRoutingAction::Drop => SutV::Drop,
+        AsRoutingAction::Local(l) => {
+            match l {
+                LocalAsRoutingAction::ForwardLocal => SutV::Deliver,
+                LocalAsRoutingAction::IngressSCMPHandleRequest { .. } | LocalAsRoutingAction::EgressSCMPHandleRequest { .. } => SutV::Alert,
+                LocalAsRoutingAction::ForwardExternal { .. } => SutV::External,
+                LocalAsRoutingAction::SendSCMPErrorResponse(m) => {
+                    SutV::Err(match m {
+                        ScmpErrorMessage::ParameterProblem(pp) => {
+                            match pp.code {
+                                PP::InvalidHopFieldMac => "mac",
+                                PP::PathExpired => "expired",
+                                PP::InvalidPath => "future",
+                                PP::UnknownHopFieldConsIngressInterface | PP::UnknownHopFieldConsEgressInterface => "interface",
+                                PP::InvalidSegmentChange => "segchange",
+                                PP::NonLocalDelivery => "nonlocal",
+                                PP::ErroneousHeaderField => "alert",
+                                _ => "other",
+                            }
+                        }
+                        ScmpErrorMessage::ExternalInterfaceDown(_) => "ifdown",
+                        _ => "other",
+                    })
+                }
+            }
+        }
+    }
+}
+
+fn class_of(r: Reject) -> &'static str {
+    match r {
+        Reject::Malformed => "malformed",
+        Reject::Expired => "expired",
+        Reject::BadIngress | Reject::BadEgress => "interface",
+        Reject::BadMac => "mac",
+        Reject::BadSegChange => "segchange",
+        Reject::NonLocal => "nonlocal",
+        Reject::IfDown => "ifdown",
+    }
+}
+
+fn refv_short(v: &Verdict) -> String {
+    match v {
+        Verdict::Deliver => "deliver".into(),
+        Verdict::Forward { .. } => "forward".into(),
+        Verdict::Reject(Reject::Malformed) => "drop".into(),
+        Verdict::Reject(r) => format!("err-{}", class_of(*r)),
+    }
+}
+
+struct Built {
+    t: Topo,
+    all: Vec<Seg>,
+    p: RStd,
+    src: usize,
+    dst: usize,
+    kind: String,
+}
+
+fn build(c: &Case, obs: &mut Obs) -> Option<Built> {
+    let t = c.topo.build();
+    let n = t.ases.len();
+    let (core, non_core) = topo::beacons(&t, &BeaconParams { ts: c.ts, seed: c.bseed, exp: c.exp }, 8);
+    let mut all = core;
+    all.extend(non_core);
+    if all.is_empty() {
+        obs.label("no-segments");
+        return None;
+    }
+    let chains: Vec<Chain> = all.iter().map(|s| s.chain.clone()).collect();
+    let (p, src, dst, kind) = match &c.base {
+        Base::Authentic { src, dst, which } => {
+            let (src, dst) = (idx(*src, n), idx(*dst, n));
+            if src == dst {
+                obs.label("base-same-as");
+                return None;
+            }
+            let paths = topo::combine(&all, src, dst);
+            if paths.is_empty() {
+                obs.label("base-no-path");
+                return None;
+            }
+            let rp = &paths[idx(*which, paths.len())];
+            let (p, _) = mac::plan_path(&chains, &rp.uses);
+            (p, src, dst, format!("authentic-{}", rp.kind))
+        }
+        Base::Splice { uses } => {
+            let mut us = vec![];
+            for u in uses.iter().take(3) {
+                let si = idx(u.seg, all.len());
+                let l = all[si].chain.hops.len();
+                let (mut lo, mut hi) = (idx(u.lo, l), idx(u.hi, l));
+                if lo > hi {
+                    std::mem::swap(&mut lo, &mut hi);
+                }
+                // mostly avoid segments of a single hop field (unspecified behaviour)
+                if lo == hi && l >= 2 && u.hi % 4 != 0 {
+                    if hi + 1 < l { hi += 1 } else { lo -= 1 }
+                }
+                let np = all[si].chain.hops[lo].peers.len();
+                let peer = match u.peer {
+                    Some(k) if np > 0 => Some(idx(k, np)),
+                    _ => None,
+                };
+                us.push(SegUse { chain: si, lo, hi, cons_dir: u.cons_dir, peer });
+            }
+            if us.is_empty() {
+                return None;
+            }
+            let (p, ex) = mac::plan_path(&chains, &us);
+            let (src, dst) = (ex.first().unwrap().asn, ex.last().unwrap().asn);
+            (p, src, dst, "splice".to_string())
+        }
+    };
+    Some(Built { t, all, p, src, dst, kind })
+}
+
+fn if_choices(t: &Topo, a: usize) -> Vec<u16> {
+    let mut v = vec![0u16];
+    let mut maxif = 0u16;
+    for l in &t.links {
+        if l.a == a {
+            v.push(l.a_if);
+            maxif = maxif.max(l.a_if);
+        }
+        if l.b == a {
+            v.push(l.b_if);
+            maxif = maxif.max(l.b_if);
+        }
+    }
+    v.push(maxif.wrapping_add(7).max(1));
+    v
+}
+
+fn step_tag(t: &Topo, a: usize, p: &RStd) -> &'static str {
+    let b = seg_bounds(p);
+    let (ci, ch) = (p.curr_inf as usize, p.curr_hf as usize);
+    if b.is_empty() || b.last().unwrap().1 != p.hops.len() || p.infos.len() != b.len() || ch >= p.hops.len() || ci >= b.len() || !(b[ci].0 <= ch && ch < b[ci].1) {
+        return "malformed";
+    }
+    if p.infos[ci].peering() {
+        return "peering";
+    }
+    if ch + 1 == b[ci].1 && ch + 1 != p.hops.len() {
+        return if t.ases[a].core { "xover-core" } else { "xover-noncore" };
+    }
+    "plain"
+}
+
+/// runs one SUT AS step on `buf`; returns the classified action (None: iterator ended / error)
+fn sut_step(pt: &ScionTopology, buf: &mut [u8], now: u32, ia: u64, ingress: u16) -> Result<Option<(SutV, String)>, Fail> {
+    let (view, _) = ScionRawPacketView::try_from_mut_slice(buf).map_err(|e| Fail::new("harness:packet-unparseable-mid-walk", e.to_string()))?;
+    let mut it = ScionNetworkSim::iter::<SpecRoutingLogic>(pt, view, ScionNetworkTime::from_timestamp_secs(now), IsdAsn(ia), ingress, false)
+        .map_err(|e| Fail::new("sim-iter-refused", format!("{e:#}")))?;
+    match it.next() {
+        None => Ok(None),
+        Some(Err(e)) => Ok(Some((SutV::Drop, format!("simulator error: {e:#}")))),
+        Some(Ok(o)) => Ok(Some((classify_action(&o.action), format!("{:?}", o.action)))),
+    }
+}
+
+fn check(c: &Case, obs: &mut Obs) -> CheckResult {
+    let Some(Built { mut t, all, mut p, src, dst, kind }) = build(c, obs) else {
+        return Ok(());
+    };
+    let n = t.ases.len();
+    let mut mkinds = vec![];
+    for m in &c.muts {
+        mkinds.push(mutate(&mut p, m, &all));
+    }
+    let src_ia = t.ases[src].ia;
+    let dst_ia = match c.dst {
+        Some(d) => t.ases[idx(d, n)].ia,
+        None => t.ases[dst].ia,
+    };
+    // clock
+    let base_now = c.ts.saturating_add(10);
+    let now = match &c.clock {
+        Clock::Valid => base_now,
+        Clock::BeforeTs(d) => c.ts.saturating_sub(*d),
+        Clock::AtExpiry { hop, delta } => {
+            if p.hops.is_empty() {
+                base_now
+            } else {
+                let k = idx(*hop, p.hops.len());
+                let b = seg_bounds(&p);
+                let si = b.iter().position(|(s, e)| *s <= k && k < *e).unwrap_or(0).min(p.infos.len().saturating_sub(1));
+                let ts = p.infos.get(si).map(|i| i.ts).unwrap_or(c.ts);
+                let e = (router::hop_expiry_ms(ts, p.hops[k].exp) / 1000) as i64 + *delta as i64;
+                e.clamp(0, u32::MAX as i64) as u32
+            }
+        }
+        Clock::After(d) => c.ts.saturating_add(256 * 338).saturating_add(*d),
+    };
+    // link states
+    for d in &c.down {
+        if let Down::Link(l) = d {
+            if !t.links.is_empty() {
+                let k = idx(*l, t.links.len());
+                t.links[k].up = false;
+            }
+        }
+    }
+    // injection point
+    let advance = |t: &Topo, p: &mut RStd, k: usize| -> (usize, u16) {
+        let (mut a, mut inif) = (src, 0u16);
+        for _ in 0..k {
+            let mut q = p.clone();
+            match router::process(t, a, inif, &mut q, dst_ia, now) {
+                Verdict::Forward { next_as, next_if, .. } => {
+                    *p = q;
+                    a = next_as;
+                    inif = next_if;
+                }
+                _ => break,
+            }
+        }
+        (a, inif)
+    };
+    let mut all_up = t.clone();
+    for l in all_up.links.iter_mut() {
+        l.up = true;
+    }
+    let (start_as, start_if) = match &c.inject {
+        Inject::Source => (src, 0),
+        Inject::Mid { k } => advance(&all_up, &mut p, 1 + (*k as usize % 6)),
+        Inject::MidWrongIf { k, ifsel } => {
+            let (a, _) = advance(&all_up, &mut p, 1 + (*k as usize % 6));
+            let ch = if_choices(&t, a);
+            (a, ch[idx(*ifsel, ch.len())])
+        }
+        Inject::Any { asn, ifsel } => {
+            let a = idx(*asn, n);
+            let ch = if_choices(&t, a);
+            (a, ch[idx(*ifsel, ch.len())])
+        }
+    };
+    for d in &c.down {
+        if let Down::OnPath(k) = d {
+            let mut q = p.clone();
+            let w = router::walk(&all_up, start_as, start_if, &mut q, dst_ia, now);
+            let fw: Vec<_> = w.visited.iter().filter(|v| v.2 != 0).collect();
+            if !fw.is_empty() {
+                let v = fw[idx(*k, fw.len())];
+                if let Some((li, _, _)) = t.link_at(v.0, v.2) {
+                    t.links[li].up = false;
+                }
+            }
+        }
+    }
+    let pt = p_pocket::to_pocket(&t).map_err(|e| Fail::new("harness:topology-rejected-by-pocketscion", format!("{e:#}")))?;
+    let bytes = mk_packet(&p, src_ia, dst_ia);
+    let nhops = p.hops.len();
+    // is the packet acceptable to the view at all?
+    {
+        let mut b = bytes.clone();
+        if ScionRawPacketView::try_from_mut_slice(&mut b).is_err() {
+            obs.label("packet-unparseable");
+            return Ok(());
+        }
+    }
+    // A: the whole traversal in one iterator (bounded number of AS steps)
+    let cap = nhops + 4;
+    let trace: Vec<(u64, u16, Option<String>)> = vcore::no_panic("ScionNetworkSim::iter", || -> Result<_, Fail> {
+        let mut b = bytes.clone();
+        let (view, _) = ScionRawPacketView::try_from_mut_slice(&mut b).unwrap();
+        let it = ScionNetworkSim::iter::<SpecRoutingLogic>(&pt, view, ScionNetworkTime::from_timestamp_secs(now), IsdAsn(t.ases[start_as].ia), start_if, false)
+            .map_err(|e| Fail::new("sim-iter-refused", format!("{e:#}")))?;
+        let mut tr = vec![];
+        for (i, o) in it.enumerate() {
+            ensure!(i < cap, "unbounded-as-steps", "more than {cap} AS steps for a path of {nhops} hop fields");
+            match o {
+                Ok(o) => tr.push((o.at_as.0, o.at_ingress_interface, Some(format!("{:?}", o.action)))),
+                Err(_) => tr.push((0, 0, None)),
+            }
+        }
+        Ok(tr)
+    })??;
+    ensure!(!trace.is_empty(), "no-verdict", "the simulator returned no step at all");
+    ensure!(trace.len() <= nhops + 1, "more-as-steps-than-hop-fields", "{} AS steps for {nhops} hop fields", trace.len());
+    // B: the same traversal step by step, each step against the reference router
+    let mut buf = bytes.clone();
+    let (mut a, mut inif) = (start_as, start_if);
+    let single_hop_seg = seg_bounds(&p).iter().any(|(s, e)| e - s == 1);
+    let mut step = 0usize;
+    let final_sut: SutV;
+    let final_ref: Verdict;
+    loop {
+        let pre = match rw::decode_header(&buf).map(|h| h.path) {
+            Ok(RPath::Std(p)) => p,
+            other => return Err(Fail::new("harness:reference-decoder-disagrees", format!("{other:?}"))),
+        };
+        let tag = step_tag(&t, a, &pre);
+        let mut rp = pre.clone();
+        let (mut rv, mut rall) = router::process_all(&t, a, inif, &mut rp, dst_ia, now, Lenient::default());
+        let ia = t.ases[a].ia;
+        let (sv, sdesc) = vcore::no_panic("SpecRoutingLogic::route", || sut_step(&pt, &mut buf, now, ia, inif))??
+            .ok_or_else(|| Fail::new("no-verdict", "iterator ended without a step"))?;
+        obs.evals(1);
+        // the stepwise run and the one-iterator run are the same traversal
+        if let Some((tia, tif, tact)) = trace.get(step) {
+            if let Some(tact) = tact {
+                ensure!(*tia == ia && *tif == inif && *tact == sdesc, "iterator-and-single-step-differ", "step {step}: iterator at {tia:x}#{tif} {tact}, single step at {ia:x}#{inif} {sdesc}");
+            }
+        } else {
+            return Err(Fail::new("iterator-stopped-early", format!("iterator made {} steps, stepwise run is at step {step}", trace.len())));
+        }
+        let ci = pre.curr_inf as usize;
+        let b = seg_bounds(&pre);
+        let mut future = false;
+        if tag != "malformed" {
+            future = pre.infos[ci].ts > now;
+            if pre.curr_hf as usize + 1 == b[ci].1 && ci + 1 < pre.infos.len() {
+                future |= pre.infos[ci + 1].ts > now;
+            }
+        }
+        let where_ = format!("step {step} at AS {ia:x} ingress {inif} [{tag}] base {kind} muts {mkinds:?}; reference {rv:?} (all violated: {rall:?}); simulator {sdesc}; path before {pre:?}");
+        // direct safety invariants on the simulator's action
+        match &sv {
+            SutV::Forward(eg) => {
+                let l = t.link_at(a, *eg);
+                ensure!(l.is_some(), format!("{tag}:forwarded-over-nonexistent-link"), "{where_}");
+                ensure!(t.links[l.unwrap().0].up, format!("{tag}:forwarded-over-down-link"), "{where_}");
+            }
+            SutV::Deliver => ensure!(dst_ia == ia, format!("{tag}:delivered-outside-destination-as"), "{where_}"),
+            SutV::External => return Err(Fail::new("harness:external-as", where_)),
+            _ => {}
+        }
+        // behaviour the property leaves open: if the simulator does not apply one of these two
+        // rules of the reference router, the comparison continues without it (counted)
+        if matches!(sv, SutV::Forward(_)) && matches!(rv, Verdict::Reject(_)) {
+            let transit = rall.contains(&Reject::NonLocal) && dst_ia == ia;
+            let internal_xover = inif == 0 && tag.starts_with("xover") && rall.contains(&Reject::BadSegChange);
+            if transit || internal_xover {
+                let mut rp2 = pre.clone();
+                let (rv2, rall2) = router::process_all(&t, a, inif, &mut rp2, dst_ia, now, Lenient { transit_through_dst: transit, internal_xover });
+                if matches!(rv2, Verdict::Forward { .. }) {
+                    if transit {
+                        obs.label("unspecified:transit-through-destination-as");
+                    }
+                    if internal_xover {
+                        obs.label("unspecified:segment-change-from-inside");
+                    }
+                    rp = rp2;
+                    rv = rv2;
+                    rall = rall2;
+                }
+            }
+        }
+        let sig = || format!("{tag}:ref={}:sut={}", refv_short(&rv), sv.short());
+        match (&rv, &sv) {
+            (Verdict::Forward { egress, next_as, next_if }, SutV::Forward(eg)) => {
+                ensure!(egress == eg, format!("{tag}:forwarded-over-other-interface"), "{where_}");
+                let post = match rw::decode_header(&buf).map(|h| h.path) {
+                    Ok(RPath::Std(p)) => p,
+                    other => return Err(Fail::new(format!("{tag}:path-unparseable-after-step"), format!("{other:?}; {where_}"))),
+                };
+                ensure!(post == rp, format!("{tag}:path-state-after-forwarding-differs"), "after: simulator {post:?}, reference {rp:?}; {where_}");
+                a = *next_as;
+                inif = *next_if;
+                step += 1;
+                ensure!(step <= nhops + 1, "harness:reference-walk-unbounded", "{where_}");
+                continue;
+            }
+            (Verdict::Deliver, SutV::Deliver) => {
+                // the path as delivered is what the destination reverses for its reply
+                let post = match rw::decode_header(&buf).map(|h| h.path) {
+                    Ok(RPath::Std(p)) => p,
+                    other => return Err(Fail::new(format!("{tag}:path-unparseable-after-step"), format!("{other:?}; {where_}"))),
+                };
+                ensure!(post == rp, format!("{tag}:path-state-at-delivery-differs"), "delivered: simulator {post:?}, reference {rp:?}; {where_}");
+            }
+            (Verdict::Reject(_), SutV::Err(cls)) if rall.iter().any(|r| class_of(*r) == *cls) => {}
+            (Verdict::Reject(_), SutV::Drop) if rall.contains(&Reject::Malformed) => {}
+            // unspecified by the property: info-field timestamps in the future
+            (_, SutV::Err("future")) if future => obs.label("unspecified:future-timestamp"),
+            // unspecified: segments of a single hop field are never produced by path construction;
+            // the simulator drops them, the reference processes them - any refusal is accepted
+            (_, SutV::Drop) if single_hop_seg => obs.label("unspecified:single-hop-segment"),
+            (Verdict::Reject(_), SutV::Err(_)) if single_hop_seg => obs.label("unspecified:single-hop-segment"),
+            _ => return Err(Fail::new(sig(), where_)),
+        }
+        final_sut = sv;
+        final_ref = rv;
+        break;
+    }
+    ensure!(trace.len() == step + 1, "iterator-continued-after-verdict", "iterator made {} steps, verdict reached at step {step}", trace.len());
+    // simulate_traversal reports the same verdict
+    let st = vcore::no_panic("ScionNetworkSim::simulate_traversal", || {
+        let mut b = bytes.clone();
+        let (view, _) = ScionRawPacketView::try_from_mut_slice(&mut b).unwrap();
+        ScionNetworkSim::simulate_traversal::<SpecRoutingLogic>(&pt, view, ScionNetworkTime::from_timestamp_secs(now), IsdAsn(t.ases[start_as].ia), start_if, false)
+            .map(|o| (o.at_as.0, o.at_ingress_interface, classify_action(&AsRoutingAction::Local(o.action))))
+            .map_err(|e| format!("{e:#}"))
+    })?;
+    match (&final_sut, &st) {
+        (SutV::Drop, Err(_)) => {}
+        (v, Ok((ia, i, w))) if v == w && *ia == t.ases[a].ia && *i == inif => {}
+        _ => return Err(Fail::new("simulate_traversal-differs-from-iterator", format!("iterator verdict {final_sut:?} at {:x}#{inif}, simulate_traversal {st:?}", t.ases[a].ia))),
+    }
+    // classification
+    let outcome = match &final_ref {
+        Verdict::Deliver => "delivered".to_string(),
+        Verdict::Reject(r) => format!("rejected-{}", class_of(*r)),
+        Verdict::Forward { .. } => "unspecified".to_string(),
+    };
+    obs.label(format!("outcome-{outcome}"));
+    obs.label(format!("base-{kind}"));
+    for k in &mkinds {
+        obs.label(format!("mut-{k}"));
+    }
+    if !c.down.is_empty() {
+        obs.label("with-down-links");
+    }
+    if !matches!(c.inject, Inject::Source) {
+        obs.label("injected-mid-network");
+    }
+    if !matches!(c.clock, Clock::Valid) {
+        obs.label("clock-off-nominal");
+    }
+    // non-trivial: at least one AS forwarded, or the packet was delivered, or an authentic packet was refused
+    if step >= 1 || matches!(final_ref, Verdict::Deliver) {
+        obs.nontrivial(&(format!("{:?}", c.topo), format!("{p:?}"), start_as, start_if, now, dst_ia, format!("{:?}", c.down)));
+    }
+    if step >= 1 && !matches!(final_ref, Verdict::Deliver) {
+        obs.label("rejected-after-forwarding");
+    }
+    Ok(())
+}
+
+// ---- generators -----------------------------------------------------------------------------------
+
+fn use_strategy() -> impl Strategy<Value = UseSpec> {
+    (any::<u16>(), any::<u16>(), any::<u16>(), any::<bool>(), prop_oneof![4 => Just(None), 1 => any::<u16>().prop_map(Some)])
+        .prop_map(|(seg, lo, hi, cons_dir, peer)| UseSpec { seg, lo, hi, cons_dir, peer })
+}
+
+fn base_strategy() -> impl Strategy<Value = Base> {
+    prop_oneof![
+        3 => (any::<u16>(), any::<u16>(), any::<u16>()).prop_map(|(src, dst, which)| Base::Authentic { src, dst, which }),
+        2 => proptest::collection::vec(use_strategy(), 1..=3).prop_map(|uses| Base::Splice { uses }),
+    ]
+}
+
+fn val16() -> impl Strategy<Value = u16> {
+    prop_oneof![Just(0u16), Just(1), Just(2), Just(0xffff), any::<u16>()]
+}
+
+fn mut_strategy() -> impl Strategy<Value = Mut> {
+    prop_oneof![
+        6 => (any::<u16>(), 0u8..5, val16(), 0u8..4).prop_map(|(hop, field, val, mode)| Mut::Hop { hop, field, val, mode }),
+        3 => (any::<u16>(), 0u8..5, prop_oneof![Just(0u32), Just(1), any::<u32>()], 0u8..4).prop_map(|(inf, field, val, mode)| Mut::Info { inf, field, val, mode }),
+        2 => (0u8..6, 0u8..64, 0u8..4).prop_map(|(field, val, mode)| Mut::Meta { field, val, mode }),
+        2 => (0u8..2, any::<bool>()).prop_map(|(i, dir)| Mut::ShiftBoundary { i, dir }),
+        1 => (any::<u16>(), any::<u16>()).prop_map(|(a, b)| Mut::SwapHops(a, b)),
+        1 => (0u8..3, 0u8..3).prop_map(|(a, b)| Mut::SwapSegs(a, b)),
+        1 => any::<u16>().prop_map(Mut::DropHop),
+        1 => any::<u16>().prop_map(Mut::DupHop),
+        2 => (any::<u16>(), any::<u16>(), any::<u16>(), prop_oneof![3 => Just(None), 1 => any::<u16>().prop_map(Some)]).prop_map(|(hop, seg, idx, peer)| Mut::ForeignHop { hop, seg, idx, peer }),
+    ]
+}
+
+fn case_strategy(topo: impl Strategy<Value = TopoSpec>) -> impl Strategy<Value = Case> {
+    (
+        topo,
+        prop_oneof![3 => Just(1_700_000_000u32), 1 => 100_000u32..(u32::MAX - 200_000), 1 => (u32::MAX - 200_000)..(u32::MAX - 90_000)],
+        any::<u64>(),
+        prop_oneof![Just(None), Just(Some(0u8)), Just(Some(255u8)), any::<u8>().prop_map(Some)],
+        base_strategy(),
+        prop_oneof![5 => Just(vec![]), 5 => proptest::collection::vec(mut_strategy(), 1..=1), 2 => proptest::collection::vec(mut_strategy(), 2..=3)],
+        prop_oneof![7 => Just(vec![]), 2 => any::<u16>().prop_map(|k| vec![Down::OnPath(k)]), 1 => proptest::collection::vec(any::<u16>().prop_map(Down::Link), 1..=3)],
+        prop_oneof![
+            7 => Just(Clock::Valid),
+            1 => (1u32..20).prop_map(Clock::BeforeTs),
+            2 => (any::<u16>(), -2i8..=2).prop_map(|(hop, delta)| Clock::AtExpiry { hop, delta }),
+            1 => (0u32..1000).prop_map(Clock::After),
+        ],
+        prop_oneof![
+            7 => Just(Inject::Source),
+            1 => any::<u16>().prop_map(|k| Inject::Mid { k }),
+            1 => (any::<u16>(), any::<u16>()).prop_map(|(k, ifsel)| Inject::MidWrongIf { k, ifsel }),
+            1 => (any::<u16>(), any::<u16>()).prop_map(|(asn, ifsel)| Inject::Any { asn, ifsel }),
+        ],
+        prop_oneof![9 => Just(None), 1 => any::<u16>().prop_map(Some)],
+    )
+        .prop_map(|(topo, ts, bseed, exp, base, muts, down, clock, inject, dst)| Case { topo, ts, bseed, exp, base, muts, down, clock, inject, dst })
+}
+
+/// Sweep: every authentic path of every AS pair of one small topology x a fixed list of single
+/// corruptions / link states / clock values / injection points.
+#[derive(Clone, Debug, Serialize, Deserialize)]
+struct Sweep {
+    topo: TopoSpec,
+    ts: u32,
+    bseed: u64,
+    exp: Option<u8>,
+}
+
+fn sweep_muts(nh: usize, ni: usize) -> Vec<Vec<Mut>> {
+    let mut v: Vec<Vec<Mut>> = vec![vec![]];
+    let at = |k: usize, n: usize| -> u16 { (((k as u32) << 16) / n as u32 + 1).min(0xffff) as u16 };
+    for h in 0..nh {
+        let hop = at(h, nh);
+        for field in 0..2u8 {
+            for (val, mode) in [(0u16, 0u8), (0, 2), (0, 3), (1, 1)] {
+                v.push(vec![Mut::Hop { hop, field, val, mode }]);
+            }
+        }
+        v.push(vec![Mut::Hop { hop, field: 2, val: 0, mode: 2 }]);
+        v.push(vec![Mut::Hop { hop, field: 2, val: 0, mode: 3 }]);
+        for b in 0..6u16 {
+            v.push(vec![Mut::Hop { hop, field: 3, val: (b << 8) | 1, mode: 1 }]);
+        }
+        v.push(vec![Mut::Hop { hop, field: 4, val: 0x80, mode: 1 }]);
+        v.push(vec![Mut::DropHop(hop)]);
+        v.push(vec![Mut::DupHop(hop)]);
+        for h2 in (h + 1)..nh {
+            v.push(vec![Mut::SwapHops(hop, at(h2, nh))]);
+        }
+    }
+    for i in 0..ni {
+        let inf = at(i, ni);
+        v.push(vec![Mut::Info { inf, field: 0, val: 1, mode: 1 }]);
+        v.push(vec![Mut::Info { inf, field: 0, val: 0x8000, mode: 1 }]);
+        v.push(vec![Mut::Info { inf, field: 1, val: 0, mode: 2 }]);
+        v.push(vec![Mut::Info { inf, field: 1, val: 0, mode: 3 }]);
+        v.push(vec![Mut::Info { inf, field: 2, val: 0, mode: 0 }]);
+        v.push(vec![Mut::Info { inf, field: 3, val: 0, mode: 0 }]);
+        v.push(vec![Mut::Info { inf, field: 4, val: 0xff, mode: 0 }]);
+    }
+    for (field, val, mode) in [(0u8, 0u8, 2u8), (1, 0, 2), (1, 0, 3), (5, 1, 0)] {
+        v.push(vec![Mut::Meta { field, val, mode }]);
+    }
+    for i in 0..ni.saturating_sub(1) {
+        v.push(vec![Mut::ShiftBoundary { i: i as u8, dir: true }]);
+        v.push(vec![Mut::ShiftBoundary { i: i as u8, dir: false }]);
+        v.push(vec![Mut::SwapSegs(i as u8, i as u8 + 1)]);
+    }
+    v
+}
+
+fn check_sweep(s: &Sweep, obs: &mut Obs) -> CheckResult {
+    let t = s.topo.build();
+    let n = t.ases.len();
+    let (core, non_core) = topo::beacons(&t, &BeaconParams { ts: s.ts, seed: s.bseed, exp: s.exp }, 8);
+    let mut all = core;
+    all.extend(non_core);
+    let chains: Vec<Chain> = all.iter().map(|s| s.chain.clone()).collect();
+    let at = |k: usize, n: usize| -> u16 { (((k as u32) << 16) / n as u32 + 1).min(0xffff) as u16 };
+    for src in 0..n {
+        for dst in 0..n {
+            if src == dst {
+                continue;
+            }
+            let paths = topo::combine(&all, src, dst);
+            for (pi, rp) in paths.iter().enumerate() {
+                let (p, _) = mac::plan_path(&chains, &rp.uses);
+                let (nh, ni) = (p.hops.len(), p.infos.len());
+                let base = Base::Authentic { src: at(src, n), dst: at(dst, n), which: at(pi, paths.len()) };
+                let mk = |muts: Vec<Mut>, down: Vec<Down>, clock: Clock, inject: Inject, dsto: Option<u16>| Case { topo: s.topo.clone(), ts: s.ts, bseed: s.bseed, exp: s.exp, base: base.clone(), muts, down, clock, inject, dst: dsto };
+                let mut cases = vec![];
+                for m in sweep_muts(nh, ni) {
+                    cases.push(mk(m, vec![], Clock::Valid, Inject::Source, None));
+                }
+                for k in 0..rp.links {
+                    cases.push(mk(vec![], vec![Down::OnPath(at(k, rp.links))], Clock::Valid, Inject::Source, None));
+                }
+                for h in 0..nh {
+                    for delta in -1i8..=1 {
+                        cases.push(mk(vec![], vec![], Clock::AtExpiry { hop: at(h, nh), delta }, Inject::Source, None));
+                    }
+                }
+                cases.push(mk(vec![], vec![], Clock::BeforeTs(1), Inject::Source, None));
+                cases.push(mk(vec![], vec![], Clock::After(0), Inject::Source, None));
+                for k in 0..rp.links.min(6) {
+                    cases.push(mk(vec![], vec![], Clock::Valid, Inject::Mid { k: k as u16 }, None));
+                    for ifsel in [0u16, 0x5555, 0xaaaa, 0xffff] {
+                        cases.push(mk(vec![], vec![], Clock::Valid, Inject::MidWrongIf { k: k as u16, ifsel }, None));
+                    }
+                }
+                for a in 0..n {
+                    for ifsel in [0u16, 0x4000, 0x8000, 0xc000, 0xffff] {
+                        cases.push(mk(vec![], vec![], Clock::Valid, Inject::Any { asn: at(a, n), ifsel }, None));
+                    }
+                    cases.push(mk(vec![], vec![], Clock::Valid, Inject::Source, Some(at(a, n))));
+                }
+                for c in cases {
+                    check(&c, obs).map_err(|f| Fail::new(f.sig.clone(), format!("{} -- inner case: {}", f.msg, serde_json::to_string(&c).unwrap_or_default())))?;
+                }
+            }
+        }
+    }
+    Ok(())
+}
+
+
+// ---- one-hop and empty paths -------------------------------------------------------------------------
+
+#[derive(Clone, Debug, Serialize, Deserialize)]
+struct OhCase {
+    topo: TopoSpec,
+    /// the link the one-hop path is built for (index), and which end originates
+    link: u16,
+    from_b: bool,
+    ts: u32,
+    seg_id: u16,
+    exp: u8,
+    /// 0 none, 1 MAC byte flipped, 2 egress replaced by another existing interface, 3 egress
+    /// replaced by an unknown interface, 4 ExpTime changed after MACing, 5 timestamp changed after
+    /// MACing, 6 hop field MACed with another AS's key
+    forge: u8,
+    fval: u16,
+    link_down: bool,
+    /// 0 valid, 1 whole second of expiry, 2 expiry + 1 s, 3 long after
+    clock: u8,
+    /// destination: None = the neighbour, Some(i) = AS i
+    dst: Option<u16>,
+    /// false: empty path instead of a one-hop path
+    onehop: bool,
+}
+
+fn check_onehop(c: &OhCase, obs: &mut Obs) -> CheckResult {
+    let mut t = c.topo.build();
+    if t.links.is_empty() {
+        obs.label("no-links");
+        return Ok(());
+    }
+    let n = t.ases.len();
+    let li = idx(c.link, t.links.len());
+    let l = t.links[li].clone();
+    let (a, a_if, b, b_if) = if c.from_b { (l.b, l.b_if, l.a, l.a_if) } else { (l.a, l.a_if, l.b, l.b_if) };
+    let dst_as = c.dst.map(|d| idx(d, n)).unwrap_or(b);
+    let (src_ia, dst_ia) = (t.ases[a].ia, t.ases[dst_as].ia);
+    if !c.onehop {
+        // empty path: AS-internal traffic, delivered iff the destination is the local AS
+        let pt = p_pocket::to_pocket(&t).map_err(|e| Fail::new("harness:topology-rejected-by-pocketscion", format!("{e:#}")))?;
+        let mut buf = mk_packet_with(RPath::Empty, 0, src_ia, dst_ia);
+        let (sv, sdesc) = vcore::no_panic("SpecRoutingLogic::route(empty)", || sut_step(&pt, &mut buf, c.ts, src_ia, 0))??.ok_or_else(|| Fail::new("no-verdict", "no step"))?;
+        obs.evals(1);
+        let want_deliver = dst_ia == src_ia;
+        match (&sv, want_deliver) {
+            (SutV::Deliver, true) => obs.label("empty-path-delivered"),
+            (SutV::Err("nonlocal"), false) => obs.label("empty-path-nonlocal"),
+            _ => return Err(Fail::new(format!("empty-path:want-deliver={want_deliver}:sut={}", sv.short()), format!("empty path at {src_ia:x} to {dst_ia:x}: {sdesc}"))),
+        }
+        if !want_deliver {
+            obs.nontrivial(&(src_ia, dst_ia));
+        }
+        return Ok(());
+    }
+    // authentic first hop field of AS a over the link, then forged as requested
+    let key_a = t.ases[a].key;
+    let mut info = rw::RInfo { flags: 1, rsv: 0, seg_id: c.seg_id, ts: c.ts };
+    let mut h0 = RHop { flags: 0, exp: c.exp, ing: 0, eg: a_if, mac: mac::hop_mac(&key_a, c.seg_id, c.ts, c.exp, 0, a_if) };
+    let forge = c.forge % 7;
+    match forge {
+        1 => h0.mac[(c.fval >> 8) as usize % 6] ^= (c.fval as u8) | ((c.fval as u8 == 0) as u8),
+        2 => {
+            let ch: Vec<u16> = if_choices(&t, a).into_iter().filter(|i| *i != 0 && *i != a_if && t.link_at(a, *i).is_some()).collect();
+            if !ch.is_empty() {
+                h0.eg = ch[idx(c.fval, ch.len())];
+            }
+        }
+        3 => h0.eg = *if_choices(&t, a).last().unwrap(),
+        4 => h0.exp = h0.exp.wrapping_add(1 + (c.fval % 255) as u8),
+        5 => info.ts = info.ts.wrapping_add(1 + (c.fval as u32 % 1000)),
+        6 => {
+            let other = t.ases[(a + 1 + idx(c.fval, n - 1)) % n].key;
+            h0.mac = mac::hop_mac(&other, c.seg_id, c.ts, c.exp, 0, a_if);
+        }
+        _ => {}
+    }
+    if c.link_down {
+        if let Some((k, _, _)) = t.link_at(a, h0.eg) {
+            t.links[k].up = false;
+        }
+    }
+    let exp_s = (router::hop_expiry_ms(info.ts, h0.exp) / 1000).min(u32::MAX as u64) as u32;
+    let now = match c.clock % 4 {
+        0 => info.ts.saturating_add(5),
+        1 => exp_s,
+        2 => exp_s.saturating_add(1),
+        _ => exp_s.saturating_add(100_000),
+    };
+    let pt = p_pocket::to_pocket(&t).map_err(|e| Fail::new("harness:topology-rejected-by-pocketscion", format!("{e:#}")))?;
+    let zero = RHop { flags: 0, exp: 0, ing: 0, eg: 0, mac: [0; 6] };
+    let mut buf = mk_packet_with(RPath::OneHop { info, hops: [h0, zero] }, 2, src_ia, dst_ia);
+    // reference, first AS (packet leaves the AS): authentic, unexpired hop field naming an existing up link
+    let authentic = mac::verifies(&key_a, info.seg_id, info.ts, &h0);
+    let unexpired = router::hop_expiry_ms(info.ts, h0.exp) >= now as u64 * 1000;
+    let link = t.link_at(a, h0.eg);
+    let up = link.map(|(k, _, _)| t.links[k].up).unwrap_or(false);
+    let mut violated = vec![];
+    if !unexpired { violated.push("expired"); }
+    if !authentic { violated.push("mac"); }
+    if link.is_none() { violated.push("interface"); } else if !up { violated.push("ifdown"); }
+    let (sv, sdesc) = vcore::no_panic("SpecRoutingLogic::route(one-hop, egress)", || sut_step(&pt, &mut buf, now, src_ia, 0))??.ok_or_else(|| Fail::new("no-verdict", "no step"))?;
+    obs.evals(1);
+    let where_ = format!("one-hop path {info:?} {h0:?} leaving AS {src_ia:x} (link {a_if}->{b_if}) now {now} forge {forge}: reference finds violated {violated:?}; simulator {sdesc}");
+    match &sv {
+        SutV::Forward(eg) => {
+            ensure!(link.is_some() && *eg == h0.eg, "one-hop:forwarded-over-nonexistent-link", "{where_}");
+            ensure!(up, "one-hop:forwarded-over-down-link", "{where_}");
+            ensure!(authentic, "one-hop:forwarded-unauthentic-hop-field", "{where_}");
+            ensure!(unexpired, "one-hop:forwarded-expired-hop-field", "{where_}");
+        }
+        SutV::Drop | SutV::Err(_) => {
+            ensure!(!violated.is_empty(), "one-hop:valid-packet-refused", "{where_}");
+            if let SutV::Err(cls) = &sv {
+                ensure!(violated.contains(cls), "one-hop:error-class-differs", "{where_}");
+            }
+            obs.label(format!("onehop-refused-{}", violated[0]));
+            if forge != 0 || c.link_down || c.clock % 4 != 0 {
+                obs.nontrivial(&(format!("{:?}", c.topo), li, c.from_b, forge, c.fval, c.link_down, c.clock % 4));
+            }
+            return Ok(());
+        }
+        _ => return Err(Fail::new(format!("one-hop:egress:sut={}", sv.short()), where_)),
+    }
+    // state after leaving: SegID advanced by the first hop field's MAC
+    let (info1, hops1) = match rw::decode_header(&buf).map(|h| h.path) {
+        Ok(RPath::OneHop { info, hops }) => (info, hops),
+        other => return Err(Fail::new("one-hop:path-unparseable-after-step", format!("{other:?}"))),
+    };
+    let mut want_info = info;
+    want_info.seg_id = mac::beta_step(info.seg_id, &h0.mac);
+    ensure!(info1 == want_info && hops1 == [h0, zero], "one-hop:path-state-after-forwarding-differs", "after: {info1:?} {hops1:?}, reference {want_info:?} {:?}; {where_}", [h0, zero]);
+    // second AS: fills in its hop field and delivers iff it is the destination
+    let (_, nb, nb_if) = link.unwrap();
+    let nb_ia = t.ases[nb].ia;
+    let (sv2, sdesc2) = vcore::no_panic("SpecRoutingLogic::route(one-hop, ingress)", || sut_step(&pt, &mut buf, now, nb_ia, nb_if))??.ok_or_else(|| Fail::new("no-verdict", "no step"))?;
+    obs.evals(1);
+    let where2 = format!("{where_}; then at AS {nb_ia:x} ingress {nb_if}, destination {dst_ia:x}: {sdesc2}");
+    if nb_ia == dst_ia {
+        ensure!(sv2 == SutV::Deliver, format!("one-hop:ingress:want=deliver:sut={}", sv2.short()), "{where2}");
+        let (info2, hops2) = match rw::decode_header(&buf).map(|h| h.path) {
+            Ok(RPath::OneHop { info, hops }) => (info, hops),
+            other => return Err(Fail::new("one-hop:path-unparseable-after-step", format!("{other:?}"))),
+        };
+        let h1 = RHop { flags: 0, exp: h0.exp, ing: nb_if, eg: 0, mac: mac::hop_mac(&t.ases[nb].key, want_info.seg_id, info.ts, h0.exp, nb_if, 0) };
+        ensure!(info2 == want_info && hops2 == [h0, h1], "one-hop:path-state-at-delivery-differs", "delivered: {info2:?} {hops2:?}, reference {want_info:?} {:?}; {where2}", [h0, h1]);
+        obs.label("onehop-delivered");
+    } else {
+        ensure!(matches!(sv2, SutV::Err("nonlocal")), format!("one-hop:ingress:want=err-nonlocal:sut={}", sv2.short()), "{where2}");
+        obs.label("onehop-nonlocal");
+    }
+    // the one-iterator run reaches the same verdict in two steps
+    let mut b2 = mk_packet_with(RPath::OneHop { info, hops: [h0, zero] }, 2, src_ia, dst_ia);
+    let steps = vcore::no_panic("ScionNetworkSim::iter(one-hop)", || -> Result<usize, Fail> {
+        let (view, _) = ScionRawPacketView::try_from_mut_slice(&mut b2).map_err(|e| Fail::new("harness:packet-unparseable", e.to_string()))?;
+        let it = ScionNetworkSim::iter::<SpecRoutingLogic>(&pt, view, ScionNetworkTime::from_timestamp_secs(now), IsdAsn(src_ia), 0, false).map_err(|e| Fail::new("sim-iter-refused", format!("{e:#}")))?;
+        let mut k = 0;
+        for _ in it {
+            k += 1;
+            ensure!(k <= 4, "unbounded-as-steps", "one-hop path: more than 4 AS steps");
+        }
+        Ok(k)
+    })??;
+    ensure!(steps == 2, "one-hop:iterator-steps", "iterator made {steps} steps; {where2}");
+    obs.nontrivial(&(format!("{:?}", c.topo), li, c.from_b, c.seg_id, c.exp, dst_ia));
+    Ok(())
+}
+
+fn onehop_strategy() -> impl Strategy<Value = OhCase> {
+    (
+        prop_oneof![any::<u16>().prop_map(|i| { let fam = topogen::small_family(); fam[idx(i, fam.len())].clone() }).boxed(), topogen::topo_strategy(3, 4).boxed()],
+        any::<u16>(),
+        any::<bool>(),
+        prop_oneof![3 => Just(1_700_000_000u32), 1 => 1000u32..(u32::MAX - 200_000), 1 => (u32::MAX - 200_000)..(u32::MAX - 90_000)],
+        any::<u16>(),
+        prop_oneof![Just(0u8), Just(63), Just(255), any::<u8>()],
+        prop_oneof![4 => Just(0u8), 6 => 1u8..7],
+        any::<u16>(),
+        prop_oneof![4 => Just(false), 1 => Just(true)],
+        prop_oneof![6 => Just(0u8), 1 => Just(1u8), 1 => Just(2u8), 1 => Just(3u8)],
+        prop_oneof![4 => Just(None), 1 => any::<u16>().prop_map(Some)],
+        prop_oneof![9 => Just(true), 1 => Just(false)],
+    )
+        .prop_map(|(topo, link, from_b, ts, seg_id, exp, forge, fval, link_down, clock, dst, onehop)| OhCase { topo, link, from_b, ts, seg_id, exp, forge, fval, link_down, clock, dst, onehop })
+}
+
+fn run(ctx: &Ctx) {
+    let fam = topogen::small_family();
+    let step = ctx.tier.pick(60u64, 2);
+    let off = ctx.seed % step;
+    ctx.run_enum("authentic-paths-all-single-corruptions", fam.len() as u64, false, |i| {
+        (i % step == off).then(|| Sweep { topo: fam[i as usize].clone(), ts: [1_700_000_000u32, 1000, u32::MAX - 100_000][(i % 3) as usize], bseed: i, exp: [None, Some(0), Some(255)][((i / 3) % 3) as usize] })
+    }, check_sweep);
+    let n = ctx.tier.pick(30_000, 1_500_000);
+    ctx.run_prop("random-packets-small-topologies", n, || {
+        let fam = topogen::small_family();
+        case_strategy(any::<u16>().prop_map(move |i| fam[idx(i, fam.len())].clone()))
+    }, check);
+    let n = ctx.tier.pick(20_000, 1_000_000);
+    ctx.run_prop("random-packets-random-topologies", n, || case_strategy(topogen::topo_strategy(3, 4)), check);
+    let n = ctx.tier.pick(10_000, 400_000);
+    ctx.run_prop("one-hop-and-empty-paths", n, onehop_strategy, check_onehop);
+}
+
+fn post(ctx: &Ctx) {
+    ctx.require_label("outcome-delivered", 500);
+    ctx.require_label("outcome-rejected-mac", 200);
+    ctx.require_label("outcome-rejected-segchange", 50);
+    ctx.require_label("outcome-rejected-ifdown", 50);
+    ctx.require_label("outcome-rejected-expired", 50);
+    ctx.require_label("rejected-after-forwarding", 200);
+}
+
+fn main() {
+    let subs = [
+        Sub { name: "authentic-paths-all-single-corruptions", run, replay: |c, v| c.replay_case::<Sweep>("c13", v, check_sweep) },
+        Sub { name: "random-packets-small-topologies", run: |_| {}, replay: |c, v| c.replay_case::<Case>("c13", v, check) },
+        Sub { name: "random-packets-random-topologies", run: |_| {}, replay: |c, v| c.replay_case::<Case>("c13", v, check) },
+        Sub { name: "one-hop-and-empty-paths", run: |_| {}, replay: |c, v| c.replay_case::<OhCase>("c13", v, check_onehop) },
+    ];
+    vcore::main(
+        "C13",
+        "cases = (topology, beacon parameters, packet, link states, clock, injection point). Packets carry standard paths built from authentic hop fields of reference beacons: paths of the reference combinator (authentic) or 1-3 arbitrary (parts of) segments in any order and direction with SegIDs that make each verify on its own (splices), then 0-3 corruptions (hop/info/meta fields incl. reserved bits, boundary shifts, swapped/dropped/duplicated/foreign hop fields), a destination ISD-AS override, links down (on the path or anywhere), a clock relative to timestamps/expiry (whole seconds around each hop's expiry) and injection at the source, mid-path, mid-path through a wrong interface, or at any AS/interface. The sweep sub-check enumerates, for every authentic path of every AS pair of a small topology, a fixed list of every single-field corruption, every on-path link down, clocks at each hop's expiry-1/0/+1 s, and all injection points. Oracle: the packet is stepped through ScionNetworkSim::iter::<SpecRoutingLogic> one AS at a time; at every step the reference router (scionproto processing order, own MAC/expiry/link-type logic) must take the same action (forward over the same interface and leave the same path bytes / deliver / SCMP error of a class the reference finds violated / drop), the next AS and interface must be the link's other end, the whole-iterator run and simulate_traversal must report the same verdict, steps <= hop fields, forwarding only over existing up links, delivery only in the destination AS. Non-trivial = at least one AS forwarded the packet or it was delivered; distinct by (topology, path bytes, injection, clock, link states).",
+        &[
+            "router alert flags are never set (the reference has no SCMP traceroute model); info-field timestamps in the future and single-hop segments are treated as unspecified (either verdict accepted, counted)",
+            "error classes compared up to: interface = unknown/mismatching ingress or egress; when several rules are violated at one AS any of their classes is accepted",
+            "one-hop and empty paths: see sub-check list / known findings",
+        ],
+        &subs,
+        post,
+    );
+}
